@@ -12,7 +12,8 @@ RULE = ("trees / single files with align=True through TorrentFile and `create --
 
 
 def run_case(run, drv, files, pl, single, via_cli, tag):
-    case = {"files": [(rel, b.token()) for rel, b in files], "pl": pl, "single": single,
+    case = {"links": cr.links(files),
+            "files": [(rel, b.token()) for rel, b in files], "pl": pl, "single": single,
             "via_cli": via_cli, "gen": tag}
     with sandbox("c15") as box:
         root, name = cr.materialize(box, files, single)
@@ -90,18 +91,18 @@ def run(tier, seed, replay=None):
 
     def still_fails(c):
         probe = Run("C15", tier, seed, RULE)
-        files = [(rel, cr.blob_from_token(t)) for rel, t in c["files"]]
+        files = cr.files_of_case(c)
         run_case(probe, Driver(), files, c["pl"], c["single"], c.get("via_cli", False), "shrink")
         return any(f.kind == "impl-vs-spec" for f in probe.failures)
     run.shrinker = still_fails
     if replay:
         c = replay["case"]
-        files = [(rel, cr.blob_from_token(t)) for rel, t in c["files"]]
+        files = cr.files_of_case(c)
         run_case(run, drv, files, c["pl"], c["single"], c.get("via_cli", False), "replay")
     else:
         from harness.common import corpus_cases
         for c in corpus_cases("C15"):
-            files = [(rel, cr.blob_from_token(t)) for rel, t in c["files"]]
+            files = cr.files_of_case(c)
             run_case(run, drv, files, c["pl"], c["single"], c.get("via_cli", False), "corpus")
         for _ in range(120 if tier == "quick" else 1200):
             files, pl, single = cr.make_case(run.rng, tier, single_p=0.2)
